@@ -153,6 +153,25 @@ def run(ctx):
         if not mv["bad"]:
             raise core.Inconclusive("binding self-test: a corrupted reconnect log was accepted by TracePool")
         ctx.notes["pool_binding_selftest"] = sorted({b["what"] for b in mv["bad"]})
+    # readiness endpoint of the real binary: behaviours of Readiness.tla (lose / tick / regain) replayed, /readiness and
+    # /liveness polled half a tick after every step
+    rres = ctx.tlc_must_pass("Readiness", "Readiness.cfg", workers=2, timeout=300, name="readiness")
+    rbehs = list(dict.fromkeys(rows(rres.output, "RDY")))
+    if len(rbehs) < 5:
+        raise core.Inconclusive("TLC exported too few readiness behaviours (%d)" % len(rbehs))
+    long_outage = [b for b in rbehs if '"readiness":503' in b and '"a":"regain"' in b]
+    rnd.shuffle(long_outage)
+    rsel = (rbehs if t else long_outage[:2] + [b for b in rbehs if '"readiness":503' not in b][:1])
+    rpath = ctx.path("readiness_behaviours.jsonl")
+    open(rpath, "w").write("\n".join(rsel) + "\n")
+    rout = ctx.path("readiness_result.json")
+    ctx.drv(["readiness", "-bin", ctx.build_proxy_binary(), "-in", rpath, "-out", rout, "-tick", "1000", "-timeout", "2"], timeout=1500)
+    rr = json.load(open(rout))
+    for m in rr.get("mismatches") or []:
+        st = m["behaviour"][m["step"]]
+        key = "C16:readiness:%s" % re.sub(r"[^a-z0-9]+", "-", re.sub(r"\d+", "N", m["what"].lower())).strip("-")[:70]
+        ctx.violation(key, "after %s (control connection %s, outage age %s ticks of 1 s, readiness timeout 2 s): %s %s" % (
+            st["a"], st["ctrl"], st["since"], m["what"], m.get("got", "")), replay=m)
     # Backoff table
     bres = ctx.tlc_must_pass("Backoff", "Backoff.cfg", workers=2, timeout=600, name="backoff")
     brows = rows(bres.output, "ROW")
@@ -184,6 +203,8 @@ def run(ctx):
         "reconnect_waits_timed": ntimed,
         "reconnect_events_validated": pv["total"],
         "all_down": ad,
+        "readiness_behaviours_replayed": rr["behaviours"],
+        "readiness_samples": rr["samples"],
         "backoff_rows": br["rows"],
         "backoff_calls": br["calls"],
     })
